@@ -197,19 +197,28 @@ def spec_C17(lines, ghost=None):
     """syscall family: every call runs once with its input and returns input*100+state; state persists per key across
     non re-entrant calls and is independent between keys; a re-entered syscall / named_syscall key gets fresh state and
     the outer-most state is what persists; spawned systems that are missing, despawned or running return an error
-    without running; queued writes are applied before the call returns."""
-    bad = []; stack = []; stored = {}; alive = set(); pending_writes = []; calls = []
+    without running; `named_syscall_direct` (call kind m) runs the registered system of the name or fails without running;
+    queued writes are applied before the call returns."""
+    def body_key(k):
+        # `syscall_once` of key k (o<k>) runs the function of `syscall` key k; `named_syscall_direct` (m<k>) the named one
+        return ("f" if k[0] == "o" else "n" if k[0] == "m" else k[0]) + k[1:]
+    bad = []; stack = []; stored = {}; alive = set(); calls = []; present = set()
     for i, l in enumerate(lines):
         t = tok(l)
         if t[0] != "sc": continue
         if t[1] == "call": calls.append([t[2], False]); continue
-        # `syscall_once` of key k (call o<k>) runs the function of `syscall` key k: its body reports itself as f<k>
-        if t[1] == "enter" and calls and calls[-1][0].replace("o", "f", 1) == t[2] and not calls[-1][1]:
+        if t[1] == "registered": present.add(t[2]); stored[t[2]] = 0; continue
+        if t[1] == "revoked": present.discard(t[2]); stored[t[2]] = 0; continue
+        if t[1] == "enter" and calls and body_key(calls[-1][0]) == t[2] and not calls[-1][1]:
             calls[-1][1] = True
             if calls[-1][0][0] == "o":
                 r = int(t[3][1:]); x = int(t[4][1:])
                 if r != 0: bad.append("line %d: syscall_once of %s entered with state %d, expected fresh state" % (i, t[2], r))
                 stack.append((t[2], r, x, "once")); continue
+            if calls[-1][0][0] == "m":
+                busy = any(e[0] == t[2] and e[3] != "once" for e in stack)
+                if t[2] not in present and not busy:
+                    bad.append("line %d: named_syscall_direct ran %s although no system is registered under the name" % (i, t[2]))
         if t[1] in ("ret", "err") and calls and calls[-1][0] == t[2]:
             c = calls.pop()
             if t[1] == "err" and c[1]: bad.append("line %d: the call of %s ran its system but returned an error" % (i, t[2]))
@@ -232,14 +241,20 @@ def spec_C17(lines, ghost=None):
             if key[0] == "o" and stack and stack[-1][0] == "f" + key[1:] and stack[-1][3] == "once":
                 k, r, x, re_ = stack.pop()
                 if v != x * 100 + r: bad.append("line %d: %s returned %d for input %d state %d" % (i, key, v, x, r))
-            elif stack and stack[-1][0] == key:
+            elif stack and stack[-1][0] == body_key(key) and (key[0] != "m" or True):
                 k, r, x, re_ = stack.pop()
                 if v != x * 100 + r: bad.append("line %d: %s returned %d for input %d state %d" % (i, key, v, x, r))
-                if not re_: stored[key] = r + 1
+                if not re_:
+                    stored[k] = r + 1
+                    if k[0] == "n": present.add(k)
             # a `ret` without an open enter is the report line of a queued / top-level call: already matched
         elif t[1] == "err":
             key = t[2]
-            if key[0] != "s": bad.append("line %d: %s returned an error" % (i, key))
+            if key[0] == "m":
+                nk = "n" + key[1:]
+                if nk in present and not any(e[0] == nk for e in stack):
+                    bad.append("line %d: named_syscall_direct of the registered idle name %s failed" % (i, nk))
+            elif key[0] != "s": bad.append("line %d: %s returned an error" % (i, key))
             elif key in alive and not any(e[0] == key for e in stack):
                 bad.append("line %d: call to live idle spawned system %s failed" % (i, key))
     if stack: bad.append("unbalanced enter/ret: %r" % (stack,))
